@@ -743,3 +743,68 @@ def dt_minlen(ctx, L, rule="R-DT-MINLEN"):
         ctx.holds(rule, inst)
     else:
         ctx.holds(rule, inst, "no length-only rejection in the handler")
+
+
+def reply_arms(ctx, L, rule="R-REPLY-ARMS"):
+    """originator side of a connection-mode transfer: what the arms of the TP.CM handler must do for the transfer to go on.
+    CTS with a grant (session known, not a hold): the window end, the sending state and an immediate deadline are stored and the job thread
+    is woken (otherwise the granted packets leave only when the old T3 deadline expires - after the responder has given up).
+    End-of-message acknowledge (session known): the originator's listeners are told, the session is marked finished."""
+    from .flow import TIME
+    f = L.cm
+    d0 = ("sub", ("p", "data"), ("c", 0))
+    sending = L.const("state", "SENDING_RTS_CTS" if L.fd else "SENDING_IN_CTS")
+    done = L.const("state", "EOM_ACK_RECEIVED") if L.fd and "EOM_ACK_RECEIVED" in L.states else L.const("state", "TRANSMISSION_FINISHED")
+    cts, ack = L.ctl.get("CTS"), L.ctl.get("EOM_ACK")
+    res = {}
+    for r in runs(ctx, f):
+        if r.term in ("raise", "exc"):
+            continue
+        gl = lits(r.guards())
+        ctl = [x[1] for g, p in gl if p and g[0] == "cmp" and g[1] == "==" and contains(g, d0) for x in (g[2], g[3]) if is_const(x)]
+        arm = "CTS" if cts in ctl else "EOM_ACK" if ack in ctl else None
+        if arm is None or L.calls(r, "__send_tp_abort"):
+            continue
+        stores = {}
+        for _, e in r.effects():
+            if e.kind == "store" and e.target[0] == "sub" and is_const(e.target[2]) and root_field(e.target) == "_snd_buffer":
+                stores[e.target[2][1]] = e.value
+        woke = any(L.is_wake(f, e) for _, e in r.effects())
+        told = any(L.is_notify(f, e) for _, e in r.effects())
+        miss = []
+        if arm == "CTS":
+            hold = any(e.kind == "store" and e.target[0] == "sub" and e.target[2] == ("c", "deadline") and e.value != TIME for _, e in r.effects()) \
+                and "state" not in stores and "next_wait_on_cts" not in stores
+            if hold:
+                continue
+            if "next_wait_on_cts" not in stores:
+                miss.append("the window end (next_wait_on_cts) is not stored")
+            if stores.get("state") != ("c", sending):
+                miss.append("the state does not become the sending state")
+            if stores.get("deadline") != TIME:
+                miss.append("the deadline is not set to now")
+            if L.fd and "next_packet_to_send" not in stores:
+                miss.append("the first segment of the window (next_packet_to_send) is not taken from the CTS")
+            if not woke:
+                miss.append("the job thread is not woken")
+        else:
+            if not told:
+                miss.append("the originator's listeners are not told about the acknowledge")
+            if "state" not in stores or not is_const(stores["state"]):
+                miss.append("the send session is not marked finished")
+            if not woke:
+                miss.append("the job thread is not woken")
+        key = "%s %s arm (session known%s)" % (L.tag, arm, ", grant > 0" if arm == "CTS" else "")
+        if miss:
+            res[key] = (miss, r.recs[-1].ev.node if r.recs else f.node)
+        else:
+            res.setdefault(key, None)
+    for key, bad in sorted(res.items()):
+        inst = "%s: the transfer is carried on" % key
+        if bad is None:
+            ctx.holds(rule, inst)
+        else:
+            ctx.violated(rule, f, inst, "; ".join(bad[0]) + (": the granted packets are not sent before the responder's T2 expires - the accepted message is "
+                         "lost" if "CTS" in key else ": the acknowledged session keeps the pair busy / the application never learns of the completion"), bad[1])
+    if len(res) < 2:
+        ctx.unknown(rule, "%s: CTS / end-of-message-acknowledge arms not found (%d)" % (f.qual, len(res)))
